@@ -46,6 +46,7 @@ type checkSpec struct {
 	Explanation string       `json:"explanation"`
 	Stubs     []string       `json:"stubs"`
 	Out       []string       `json:"out_of_scope"`
+	Parts     []*checkSpec   `json:"parts"`
 }
 
 type extraOverlay struct {
@@ -89,6 +90,9 @@ func buildOverlay(repo, verif string, spec *checkSpec) (map[string][]byte, error
 		}
 		// the API file goes into every package that has harness files
 		all := append([]string{"common/zz_verif_api.go"}, files...)
+		if dir != "mempool" {
+			all = append(all, "common/zz_verif_alloc.go")
+		}
 		for _, f := range all {
 			src, err := os.ReadFile(filepath.Join(verif, "harness", f))
 			if err != nil {
